@@ -253,6 +253,15 @@ func checkC15(cfg *core.Config) int {
 			sig := "rand-abort"
 			if strings.Contains(e.Message, "stack overflow") || strings.Contains(e.Message, "goroutine stack exceeds") {
 				sig = "rand-unbounded-recursion"
+				isRec := pr.pl.ByID[e.Prog].Meta["recursive"] == true || pr.pl.ByID[e.Prog].Meta["pinned"] == true
+				for f := range pr.pl.ByID[e.Prog].Features {
+					if strings.HasPrefix(f, "recursive:") {
+						isRec = true
+					}
+				}
+				if !isRec {
+					sig = "rand-unbounded-recursion-without-recursive-type" // not the recorded finding
+				}
 			}
 			rep.Violate(core.Violation{Signature: sig, Case: e.Prog, Files: files, Message: fmt.Sprintf("calling %s() aborted the process (does not terminate): %s", e.What, core.Trunc(e.Message, 800))})
 		}
